@@ -1,0 +1,5 @@
+//go:build !verif
+
+package litefs
+
+func verifPageOp(db *DB, op string, pgno uint32) error { return nil }
